@@ -81,3 +81,8 @@ def set_class_attr(key, name, value):
 def clock_now():
     """the value the last time.monotonic_ns() call returned (engine only)"""
     raise NotImplementedError("clock_now is an engine-only helper")
+
+
+def clock_ns_of(x):
+    """the ghost-clock value (ns) of a wall-clock float (engine only)"""
+    raise NotImplementedError("clock_ns_of is an engine-only helper")
